@@ -10,8 +10,7 @@ GenNext == \/ \E p \in NewTxs \X BOOLEAN : Add(p[1], p[2])
            \/ \E p \in known \X BOOLEAN : Add(p[1], p[2])
            \/ \E S \in SUBSET (known \ committed) : Commit(S)
            \/ \E p \in (NewTxs \cup {t \in known : made > 2}) \X BOOLEAN : Add(p[1], p[2])       \* (adds are two of six actions)
-           \* the byte limit is small in one of four Candidate calls
-           \/ \E p \in {b \in 1..MaxTs : made >= 0} \X (0..MaxPool) \X (1..4) : Candidate(p[1], p[2], p[3] = 1)
+           \/ \E p \in {b \in 1..MaxTs : made >= 0} \X (0..MaxPool) \X ByteLimits : Candidate(p[1], p[2], p[3])
            \/ \E t \in {b \in 0..MaxTs : made >= 0} : DropOld(t)
            \/ \E p \in {b \in 1..MaxTs : made >= 0} \X known : (CheckTxs(p[1]) \/ HasTx(p[2]))
 GenSpec == Init /\ [][GenNext]_vars
